@@ -32,7 +32,7 @@ for d in sorted(glob.glob(os.path.join(src, 'C??[a-z]'))):
     am = c.get("agent_meta", {})
     meta = {
         "property": pid, "variant": v,
-        "breaks": am.get("summary"),
+        "breaks": am.get("breaks") or am.get("summary"),
         "needs_to_manifest": am.get("needs_to_manifest"),
         "files_touched": am.get("files_touched"),
         "origin": "written by a fresh sub-agent given only the property text and a scratch worktree; nothing from /verif",
